@@ -134,7 +134,7 @@ def _c02():
     for ik in range(3):
         tiers = ("quick", "thorough") if ik in (0, 1) else ("thorough",)
         hs.append(H("c02.VH_subroute", {"R": 2, "KIND0": 3, "KIND1": 0, "IKIND0": ik, "AND": 0, "L": 3, "ROUNDS": 3, "CONNS": 2},
-                    {"R": 2, "KIND0": 3, "KIND1": 0, "IKIND0": ik, "AND": 1, "L": 3, "ROUNDS": 3, "CONNS": 2}, variant=f"sub{ik}", weight=5,
+                    {"R": 2, "KIND0": 3, "KIND1": 0, "IKIND0": ik, "AND": 0, "L": 3, "ROUNDS": 3, "CONNS": 2}, variant=f"sub{ik}", weight=5,
                     tiers=tiers, covers=["subroute entered", "subroute fell through"] if ik else ["subroute entered"]))
     return hs
 
@@ -263,7 +263,7 @@ CHECKS["C07"] = {
 }
 
 CHECKS["C16"] = {
-    "harnesses": [H("c16.VH_socks5", {"L": 17 if i == 2 else 16, "ROUNDS": 1, "CFG": i}, {"L": 17, "ROUNDS": 2, "CFG": i}, variant=f"cfg{i}", weight=3,
+    "harnesses": [H("c16.VH_socks5", {"L": 17 if i == 2 else 16, "ROUNDS": 1, "CFG": i}, {"L": 17, "ROUNDS": (1 if i in (2, 3, 6) else 2), "CFG": i}, variant=f"cfg{i}", weight=3,
                     covers=(["refused", "outbound action attempted"] if i not in (4, 5) else ["refused"]) + (["authenticated"] if i in (2, 3, 6) else []))
                   for i in range(9)] + [
         H("c16.VH_socks5_pair", {"L": 12, "ROUNDS": 1, "PAIR": i}, {"L": 13, "ROUNDS": 2, "PAIR": i}, variant=f"pair{i}", weight=3,
@@ -274,7 +274,7 @@ CHECKS["C16"] = {
     "level_note": "nine configurations (default commands; CONNECT only; BIND with one user; ASSOCIATE+BIND with two users incl. an empty password; a credential map holding only an empty user name; user names given as placeholders that resolve to nothing, alone and beside a real account; BIND only; ASSOCIATE only) and six pairs of handler instances provisioned one after the other (the first one is then served; for two pairs that differ only in a password - a reload that rotates it - the second one); client stream <= 16 (quick) / 17 (thorough) bytes delivered in 1-2 reads - enough for greeting, a 1-2 byte user and password and an IPv4 or short FQDN request; the native twin observes the outbound attempt through the reply code",
     "assumptions": ["handleConnect / handleBind / handleAssociate and DNSResolver.Resolve of go-socks5 are intercepted sinks", "zap/log are no-op stubs"],
     "outside": ["streams longer than the bound (long user names, IPv6 requests in the quick tier)", "placeholders that resolve to non-empty values", "what the outbound actions do once started"],
-    "bounds": {"quick": "stream <= 16 bytes, one read", "thorough": "stream <= 17 bytes (pairs: 13; rotation pairs 17, one read), two reads"},
+    "bounds": {"quick": "stream <= 16 bytes, one read", "thorough": "stream <= 17 bytes, two reads (one read for the three configurations with real accounts; pairs: 13 bytes, rotation pairs 17 / one read)"},
 }
 
 CHECKS["C17"] = {
@@ -338,7 +338,7 @@ CHECKS["C12"] = {
 CHECKS["C13"] = {
     "harnesses": [
         H("c13.VH_listener", {"CONNS": 2, "L": 3}, {"CONNS": 3, "L": 3}, covers=["delivered and read", "consumed or rejected", "closed"], weight=3, **_envonly),
-        H("c13.VH_listener", {"params": {"CONNS": 2, "L": 2}, "preempt": 1}, {"params": {"CONNS": 2, "L": 3}, "preempt": 2}, variant="preempt", covers=["delivered and read", "closed"], weight=5, **_envonly),
+        H("c13.VH_listener", {"params": {"CONNS": 2, "L": 2}, "preempt": 1}, {"params": {"CONNS": 2, "L": 3}, "preempt": 1}, variant="preempt", covers=["delivered and read", "closed"], weight=5, **_envonly),
         H("c13.VH_listener_wrap", {"CONNS": 2, "L": 3}, {"CONNS": 2, "L": 4}, covers=["handler consumed the buffered bytes and wrapped", "delivered and read", "delivered after a handler consumed bytes"], weight=4, **_envonly),
         H("c13.VH_listener_wrap", {"CONNS": 2, "L": 3, "TLS": 1}, {"CONNS": 2, "L": 4, "TLS": 1}, variant="tls-state", covers=["TLS state exposed", "delivered and read"], weight=4, **_envonly),
         H("c13.VH_listener", {"CONNS": 2, "L": 2, "NOREAD": 1}, {"CONNS": 3, "L": 3, "NOREAD": 1}, variant="noread", covers=["delivered and read", "closed"], weight=1, **_envonly),
@@ -352,7 +352,7 @@ CHECKS["C13"] = {
     "level_note": "scripted base listener (yields the connections, then blocks until closed); the consumer accepts after the handlers ran (slow consumer) or, with pre-emption, in between; the TLS connection state hand-over (tlsConnection) is exercised with a handler that records connection states the way the tls handler does - no TLS handshake is executed; sync.Pool returns the most recently pooled buffer (LIFO) - the adversarial 'any pooled buffer' mode is used in the thorough tier; not natively replayable",
     "assumptions": ["scripted base listener and client connections", "sync.Pool model: Get returns the last Put object, or New()"],
     "outside": ["more than 3 connections", "a real TLS handshake/decryption before hand-over (crypto/tls is not encoded)", "more than 2 pre-emptions"],
-    "bounds": {"quick": "2 connections, streams <= 3 bytes, <= 1 pre-emption", "thorough": "3 connections, <= 2 pre-emptions"},
+    "bounds": {"quick": "2 connections, streams <= 3 bytes, <= 1 pre-emption", "thorough": "3 connections, <= 1 pre-emption (2 for the close-pending harness)"},
 }
 CHECKS["C08"] = {
     "harnesses": [
